@@ -100,7 +100,9 @@ def make_dtype(I, args, kw):
         n = 1
         for s in shp:
             n = sym.mul(n, s)
-        return DTypeM(sym.mul(n, sub.itemsize), None, 'subarray')
+        r = DTypeM(sym.mul(n, sub.itemsize), None, 'subarray')
+        r.base, r.subshape = sub, tuple(shp)       # dtype((base, shape)): `shape` items of `base`, C order
+        return r
     if isinstance(spec, (str, FmtStr)):
         if isinstance(spec, str) and ',' in spec and not spec.strip().startswith('('):
             parts = [p.strip() for p in re.split(r',(?![^()]*\))', spec)]
